@@ -622,6 +622,11 @@ func (fc *FnCtx) load(st *State, a *Addr, t types.Type) Val {
 			}
 		}
 		fc.regArr(n, fc.arrSortFor(a, ls))
+		if a.Kind == aField || a.Kind == aCell {
+			if fv, ok := st.forwarded(n, a.Obj); ok {
+				return fv
+			}
+		}
 		return fc.selectAt(a, st.get(n))
 	})
 	return v
@@ -686,6 +691,9 @@ func (fc *FnCtx) storeVal(st *State, a *Addr, t types.Type, v Val) *State {
 			st = st.setRaw(n, lv[l[0]])
 		} else {
 			st = st.store(n, fc.storeAtTerm(a, st.get(n), lv[l[0]]))
+			if a.Kind == aField || a.Kind == aCell {
+				st.key, st.val = a.Obj, lv[l[0]]
+			}
 		}
 	}
 	return st
